@@ -34,6 +34,7 @@ import (
 	"sort"
 	"strings"
 	"sync"
+	"sync/atomic"
 	"time"
 
 	"github.com/gobwas/httphead"
@@ -118,7 +119,7 @@ func drawChunks(t *rapid.T, label string, size int) []int {
 	return c
 }
 
-var plainKinds = []string{"write-msg", "writer", "writer", "writer-fail", "ownbuf", "cipher-writer", "cipher-reader", "readfrom", "control-writer", "mask-helpers", "reject", "ext-writer", "shared-send", "send-close", "read-data", "read-msg", "reader", "ping", "ping", "pong", "compiled"}
+var plainKinds = []string{"write-msg", "writer", "writer", "writer-fail", "ownbuf", "cipher-writer", "cipher-reader", "readfrom", "control-writer", "mask-helpers", "reject", "shared-upgrade", "ext-writer", "shared-send", "send-close", "read-data", "read-msg", "reader", "ping", "ping", "pong", "compiled"}
 var flateKinds = []string{"flate-send", "flate-recv", "flate-recv", "flate-bytes", "flate-writer", "flate-reader"}
 
 // drawTemplate draws the shape of a session. light = layer 2 (many sessions per case).
@@ -196,6 +197,13 @@ func drawTemplate(t *rapid.T, light, tcp bool) template {
 		}
 		s.Chunks = drawChunks(t, "chunks", s.Size)
 		tp.Steps = append(tp.Steps, s)
+	}
+	if light {
+		// layer 2: every session goes through one of the run's shared upgraders
+		// right after its own handshake, i.e. all of them at about the same time
+		// and (for the run's selectors) for the first time
+		first := stepSpec{Kind: "shared-upgrade", Which: rapid.IntRange(0, 15).Draw(t, "shared-upgrade"), Chunks: gen.Chunks(t, "su.chunks"), Ctl: -1, Frag: 1}
+		tp.Steps = append([]stepSpec{first}, tp.Steps...)
 	}
 	switch rapid.IntRange(0, 3).Draw(t, "end") {
 	case 0, 1:
@@ -1109,7 +1117,15 @@ var (
 	tcpMu     sync.Mutex
 	tcpIdle   = sync.NewCond(&tcpMu)
 	tcpActive int // connections being served
+
+	tcpDials    int64 // loopback dials of this process so far
+	tcpBudgetOK bool  // decided at the start of a case: dial for real in this case
 )
+
+const tcpDialCap = 6000 // every dial costs an ephemeral port for a while
+
+// tcpCaseStart is called once at the start of every case.
+func tcpCaseStart() { tcpBudgetOK = atomic.LoadInt64(&tcpDials) < tcpDialCap }
 
 func tcpListen() (string, error) {
 	tcpOnce.Do(func() {
@@ -1157,6 +1173,11 @@ func tcpQuiesce() {
 }
 
 func (s *session) stepTCPDial(o op) {
+	if !tcpBudgetOK {
+		s.logf("skipped: the loopback dial budget of this process is used up")
+		return
+	}
+	atomic.AddInt64(&tcpDials, 1)
 	addr, lerr := tcpListen()
 	if lerr != nil {
 		s.logf("no loopback listener in this environment")
@@ -1510,6 +1531,35 @@ func (s *session) stepReject(o op) {
 	s.logf("%s rejection#%d same-error=%t hs={%s} response={%s} body=%s shared-before=%s shared-after=%s", via, o.spec.Which%len(sharedRejections), err == shared, renderHS(hs), renderHead(head), digest([]byte(body)), before, after)
 	s.expect(err == shared && !strings.HasPrefix(head, "HTTP/1.1 101"), "the upgrade rejected by %s returned %v and answered %q", via, err, strings.SplitN(head, "\r\n", 2)[0])
 	s.expect(before == after, "the rejection error value shared by all sessions changed during Upgrade: %s -> %s", before, after)
+}
+
+// stepSharedUpgrade: a server upgrade through one of the run's shared upgraders
+// (Protocol made by SelectEqual / SelectFromSlice over 1, 16, 17 or 40 names).
+func (s *session) stepSharedUpgrade(o op) {
+	k := o.spec.Which % len(protoLists)
+	l := protoLists[k]
+	want := l[s.id%len(l)]
+	req := []byte("GET /" + word(s.id, 1000+o.idx*16, 5) + " HTTP/1.1\r\nHost: shared.example\r\nUpgrade: websocket\r\nConnection: Upgrade\r\n" +
+		"Sec-WebSocket-Version: 13\r\nSec-WebSocket-Key: " + base64.StdEncoding.EncodeToString(content(s.id, 1001+o.idx*16, 16, false)) + "\r\n" +
+		"Sec-WebSocket-Protocol: " + word(s.id, 1002+o.idx*16, 6) + ", " + want + "\r\n\r\n")
+	rec := tx.NewRec()
+	var hs ws.Handshake
+	var err error
+	via := "Upgrader"
+	if (o.spec.Which/len(protoLists))%2 == 0 {
+		hs, err = s.env.up[k].Upgrade(tx.RW{Reader: s.src(req, o.spec.Chunks), Writer: s.dst(rec)})
+	} else {
+		via = "HTTPUpgrader"
+		r, perr := http.ReadRequest(bufio.NewReader(bytes.NewReader(req)))
+		if perr != nil {
+			s.expect(false, "harness: net/http does not parse the request: %v", perr)
+			return
+		}
+		_, _, hs, err = s.env.http[k].Upgrade(r, tx.NewHijackable(s.src(nil, nil), s.dst(rec), 0))
+	}
+	head := string(rec.Bytes())
+	s.logf("%s selector#%d (%d names) err=%s hs={%s} response={%s}", via, k, len(l), renderErr(err), renderHS(hs), renderHead(head))
+	s.expect(err == nil && hs.Protocol == want, "the shared upgrader (selector over %d names) selected %q, the client offered the supported %q (err=%v)", len(l), hs.Protocol, want, err)
 }
 
 // stepSendClose builds a close frame the documented way and sends it; the
@@ -2144,6 +2194,8 @@ func (s *session) step() {
 			s.stepExtwPut(o)
 		case "reject":
 			s.stepReject(o)
+		case "shared-upgrade":
+			s.stepSharedUpgrade(o)
 		case "shared-send":
 			s.stepSharedSend(o)
 		case "send-close":
